@@ -599,6 +599,7 @@ func reachAvoidingInstr(a, b, avoid ssa.Instruction) bool {
 }
 
 func pathAvoiding(a, b ssa.Instruction, avoid func(ssa.Instruction) bool) bool {
+	avoid = liftMust(avoid, 1) // a helper that does it on all of its paths counts
 	type item struct {
 		b   *ssa.BasicBlock
 		idx int
